@@ -302,25 +302,30 @@ def validatorFn (id : Str) (supportedOps : List Str) : Option (PV → Bool) :=
       | _ => false
   else none
 
+/-- one element of the found value: a `Feature` becomes its name, a tuple its `str()` -/
+def convElemM (e : PV) : Except Err PV :=
+  match e with
+  | .feat n _ _ => pure n
+  | .tuple l => match pyReprTuple l with
+    | some s => pure (PV.str s)
+    | none => throw (Err.unmodelled "tuple-repr")
+  | v => pure v
+
+/-- `_validate_property_value` over the converted elements: validation function if there is one, else membership -/
+def strictOk (p : PropSpec) (vfn : Option (PV → Bool)) (conv : List PV) : Bool :=
+  if !p.strict then true
+  else match vfn with
+    | some f => conv.all f
+    | none => conv.all fun v => match v with | .str s => p.values.contains s | _ => false
+
 /-- `_process_found_property_value` + `_validate_property_value` for one found (non-`None`) value.
-`ok true` = validated, `ok false` = `ValueError` (the caller turns it into "no match"). -/
+first component `true` = validated, `false` = `ValueError` (the caller turns it into "no match"). -/
 def processFound (p : PropSpec) (vfn : Option (PV → Bool)) (found : PV) : Except Err (Bool × List PV) := do
   let elems ← match found with
     | .fset l => pure l
     | v => if v.hashable then pure [v] else throw (Err.type "unhashable-option-value")
-  let conv ← elems.mapM fun e =>
-    match e with
-    | .feat n _ _ => pure n
-    | .tuple l => match pyReprTuple l with
-      | some s => pure (PV.str s)
-      | none => throw (Err.unmodelled "tuple-repr")
-    | v => pure v
-  let ok :=
-    if !p.strict then true
-    else match vfn with
-      | some f => conv.all f
-      | none => conv.all fun v => match v with | .str s => p.values.contains s | _ => false
-  pure (ok, dedupe conv)
+  let conv ← elems.mapM convElemM
+  pure (strictOk p vfn conv, dedupe conv)
 
 /-- `_validate_options_against_property_mapping`; `ok none` = a `ValueError` was raised inside -/
 def validateProps (vf : Str → Option (PV → Bool)) : List PropSpec → Opts → Except Err (Option Bool)
@@ -768,12 +773,19 @@ def allDistinct : List Str → Bool
   | [] => true
   | a :: r => !r.contains a && allDistinct r
 
-/-- well-formed chain: one source under a spine of vocabulary operations; only the first operation may take several
-(distinct) sources, and exactly as many as its group allows -/
-def Chain.wf : Chain → Bool
+/-- unary spine: one source, every operation takes exactly one input -/
+def Chain.wfU : Chain → Bool
   | .src [n] => srcOk n
   | .src _ => false
-  | .step (.src ns) op => ns.all srcOk && !ns.isEmpty && allDistinct ns && op.ok && op.arityOk ns.length
-  | .step c op => c.wf && op.ok && op.arityOk 1
+  | .step c op => c.wfU && op.ok && op.arityOk 1
+
+/-- well-formed chain: a unary spine of vocabulary operations over one source, or a single operation over several
+distinct `&`-joined sources (exactly as many as its group allows).  A multi-input operation followed by further
+suffixes is *not* well-formed: mloda cannot read such a name back (`C16.amp_then_suffix_witness`). -/
+def Chain.wf : Chain → Bool
+  | .step (.src ns) op =>
+    if 2 ≤ ns.length then ns.all srcOk && allDistinct ns && op.ok && op.arityOk ns.length
+    else Chain.wfU (.step (.src ns) op)
+  | c => c.wfU
 
 end Chain
